@@ -95,6 +95,21 @@ func run(e *vlib.Env) vlib.Result {
 	return random(e)
 }
 
+type transformCtxKey struct{}
+
+// transformFor picks what a subscriber decorator's transform does to a message: nothing, a metadata edit, or a replaced
+// message context (a transform may do anything to the message; the decorator's own termination must not depend on it).
+func transformFor(v uint64) func(*message.Message) {
+	switch v % 3 {
+	case 0:
+		return func(*message.Message) {}
+	case 1:
+		return func(m *message.Message) { m.Metadata.Set("c07-transformed", "1") }
+	default:
+		return func(m *message.Message) { m.SetContext(context.WithValue(context.Background(), transformCtxKey{}, 1)) }
+	}
+}
+
 func productGoroutine(g vlib.Goroutine) bool {
 	c := g.CreatedBy
 	return strings.Contains(c, "watermill/pubsub/gochannel.") || strings.Contains(c, "message.(*messageTransformSubscriberDecorator)")
@@ -242,7 +257,7 @@ func pair(e *vlib.Env, cell int) vlib.Result {
 	w.ps = gochannel.NewGoChannel(cfg, watermill.NopLogger{})
 	w.front = w.ps
 	for d := 0; d < fronts; d++ {
-		w.front, _ = message.MessageTransformSubscriberDecorator(func(m *message.Message) {})(w.front)
+		w.front, _ = message.MessageTransformSubscriberDecorator(transformFor(vlib.HashStr(fmt.Sprintf("%s/transform%d", e.ID(), d))))(w.front)
 	}
 	ctl := vlib.NewCtl(e.R.Uint64(), 0, 0)
 	defer ctl.Uninstall()
@@ -332,6 +347,21 @@ func pair(e *vlib.Env, cell int) vlib.Result {
 		w.mu.Lock()
 		ch1 := w.chans[0]
 		w.mu.Unlock()
+		// "an unread channel": behind a subscriber decorator the channel is unbuffered, so once the process is quiescent after
+		// the cancel it must already be closed without anybody having read it; a message that can still be received then was
+		// held by a forwarder that the cancel did not release
+		if reader == "never-read" && fronts > 0 && len(deferred) == 0 {
+			if o, _ := vlib.Settle(vlib.WD); o == vlib.Stuck {
+				res.Count("unread_decorated_channel_probed_after_cancel", 1)
+				select {
+				case m, ok := <-ch1:
+					if ok {
+						res.Fail("cancel-channel-open-while-unread", "the subscription context was cancelled and the process is quiescent, but the unread decorated output channel is still open and still hands out message %s in cell: %s", m.UUID, spec)
+					}
+				default: // open and nobody sending: the wait below reports it
+				}
+			}
+		}
 		// the harness takes over reading the cancelled subscription's channel: it must end
 		ended := make(chan struct{})
 		go func() {
@@ -591,7 +621,7 @@ func storm(e *vlib.Env) vlib.Result {
 		for i, n := 0, r.Intn(4); i < n; i++ {
 			var sub message.Subscriber = ps
 			for d, nd := 0, r.Intn(3); d < nd; d++ {
-				dec, err := message.MessageTransformSubscriberDecorator(func(*message.Message) {})(sub)
+				dec, err := message.MessageTransformSubscriberDecorator(transformFor(vlib.HashStr(fmt.Sprintf("%s/transform%d.%d", topic, i, d))))(sub)
 				if err != nil {
 					res.Verdict, res.Reason = vlib.HarnessError, err.Error()
 					return res
